@@ -51,8 +51,9 @@
    * `tostring` of tables/functions prints a store index, not an address.
    * Lua53: __pairs, __name, ipairs through __index and the table library through metamethods are
      not modelled (raw accesses as in 5.1).
-   * no string metatable except indexing a string into the `string` table (getmetatable("")
-     is nil); no `__len`, `__gc`, `__mode`; `print` converts with the builtin tostring even if
+   * strings share one metatable (table 5 of the initial state, __index = the string library) that
+     getmetatable("") returns and that indexing, field assignment, calls, arithmetic on
+     non-numeral strings, unary minus and `..` consult; `tostring`/`print` do not consult it; no `__len`, `__gc`, `__mode`; `print` converts with the builtin tostring even if
      the global `tostring` was reassigned; no coroutines, `load*`, `require`, io, os, `math.huge`.
    * `goto` may target any label of an enclosing block of the same function activation, or a label
      later in the same block (LuaWf checks the stricter LuaJIT rules statically). *)
@@ -383,6 +384,7 @@ Definition trim (s : string) : string := srev (trim_right_rev (srev (skip_space 
 Definition str_to_num (s : string) : option (bool * Q) :=
   match trim s with
   | String "-"%char r => match parse_number r with Some (fl, q) => Some (fl, q_neg q) | None => None end
+  | String "+"%char r => parse_number r
   | t => parse_number t
   end.
 
@@ -472,6 +474,9 @@ Definition globals_id : positive := 1%positive.
 Definition string_lib_id : positive := 2%positive.
 Definition table_lib_id : positive := 3%positive.
 Definition math_lib_id : positive := 4%positive.
+(* the metatable shared by all strings: an ordinary table, created in the initial state with
+   __index = the string library; getmetatable("") returns it, programs may add fields to it *)
+Definition string_meta_id : positive := 5%positive.
 
 (* the metamethod `name` of v, nil if none (only tables have metatables here) *)
 Definition metamethod (st : state) (v : value) (name : string) : value :=
@@ -482,6 +487,16 @@ Definition metamethod (st : state) (v : value) (name : string) : value :=
       | None => VNil
       end
   | _ => VNil
+  end.
+
+(* like `metamethod`, and for a string the field `name` of the string metatable.
+   Used where a string operand can reach a metamethod: arithmetic on a string that is not a numeral,
+   concatenation, unary minus, indexing, assigning a field, calling.  (`tostring` and `print` keep using
+   `metamethod`: a __tostring field put into the string metatable is NOT consulted -- documented deviation.) *)
+Definition metamethod_s (st : state) (v : value) (name : string) : value :=
+  match v with
+  | VStr _ => raw_get (get_table st string_meta_id) (VStr name)
+  | _ => metamethod st v name
   end.
 
 Definition raw_set_in (st : state) (id : positive) (k v : value) : state :=
@@ -689,6 +704,9 @@ Definition pure_builtin (b : builtin) (args : list value) (st : state) : res (li
               ROk [if is_nil protected then VTable m else protected] st
           | None => ROk [VNil] st
           end
+      | VStr _ =>
+          let protected := raw_get (get_table st string_meta_id) (VStr "__metatable") in
+          ROk [if is_nil protected then VTable string_meta_id else protected] st
       | _ => ROk [VNil] st
       end
   | BRawget =>
@@ -1075,7 +1093,15 @@ with index (n : nat) (v k : value) (st : state) {struct n} : res value :=
             | h => index n h k st
             end
           else ROk r st
-      | VStr _ => ROk (raw_get (get_table st string_lib_id) k) st
+      | VStr _ =>
+          (* through the __index of the string metatable (initially the string library) *)
+          match metamethod_s st v "__index" with
+          | VNil => err "attempt to index a string value" st
+          | (VFun _ | VBuiltin _) as h =>
+              do* rs, st1 <- call n h [v; k] st;
+              ROk (first rs) st1
+          | h => index n h k st
+          end
       | _ => err ("attempt to index a " ++ type_name v ++ " value") st
       end
   end
@@ -1099,6 +1125,14 @@ with setindex (n : nat) (t k v : value) (st : state) {struct n} : res unit :=
             | h => setindex n h k v st
             end
           else raw tt
+      | VStr _ =>
+          match metamethod_s st t "__newindex" with
+          | VNil => err "attempt to index a string value" st
+          | (VFun _ | VBuiltin _) as h =>
+              do* _rs, st1 <- call n h [t; k; v] st;
+              ROk tt st1
+          | h => setindex n h k v st
+          end
       | _ => err ("attempt to index a " ++ type_name t ++ " value") st
       end
   end
@@ -1124,7 +1158,7 @@ with call (n : nat) (f : value) (args : list value) (st : state) {struct n} : re
               end
           end
       | _ =>
-          match metamethod st f "__call" with
+          match metamethod_s st f "__call" with
           | VNil => err ("attempt to call a " ++ type_name f ++ " value") st
           | h => call n h (f :: args) st
           end
@@ -1204,8 +1238,8 @@ with binop_apply (n : nat) (op : binop) (a b : value) (st : state) {struct n} : 
               match to_num a, to_num b with
               | Some (fx, x), Some (fy, y) => arith_num op fx x fy y st
               | oa, _ =>
-                  let h1 := metamethod st a (arith_event op) in
-                  let h := if is_nil h1 then metamethod st b (arith_event op) else h1 in
+                  let h1 := metamethod_s st a (arith_event op) in
+                  let h := if is_nil h1 then metamethod_s st b (arith_event op) else h1 in
                   if is_nil h then
                     let culprit := match oa with None => a | Some _ => b end in
                     err ("attempt to perform arithmetic on a " ++ type_name culprit ++ " value") st
@@ -1216,8 +1250,8 @@ with binop_apply (n : nat) (op : binop) (a b : value) (st : state) {struct n} : 
           if is_str_or_num a && is_str_or_num b
           then ROk (VStr (tostring_basic (d53 st) a ++ tostring_basic (d53 st) b)) st
           else
-            let h1 := metamethod st a "__concat" in
-            let h := if is_nil h1 then metamethod st b "__concat" else h1 in
+            let h1 := metamethod_s st a "__concat" in
+            let h := if is_nil h1 then metamethod_s st b "__concat" else h1 in
             if is_nil h then
               let culprit := if is_str_or_num a then b else a in
               err ("attempt to concatenate a " ++ type_name culprit ++ " value") st
@@ -1307,7 +1341,7 @@ with unop_apply (n : nat) (op : unop) (a : value) (st : state) {struct n} : res 
           match to_num a with
           | Some (fl, x) => ROk (mknum st fl (q_neg x)) st
           | None =>
-              let h := metamethod st a "__unm" in
+              let h := metamethod_s st a "__unm" in
               if is_nil h then err ("attempt to perform arithmetic on a " ++ type_name a ++ " value") st
               else do* rs, st1 <- call n h [a; a] st; ROk (first rs) st1
           end
@@ -1587,8 +1621,9 @@ Definition init_state (d : dialect) : state :=
     pset globals_id (table_of (global_lib d) empty_table)
       (pset string_lib_id (table_of string_lib empty_table)
          (pset table_lib_id (table_of (table_lib d) empty_table)
-            (pset math_lib_id (table_of (math_lib d) empty_table) PLeaf))) in
-  mkState PLeaf 1%positive tabs 5%positive PLeaf 1%positive [] d.
+            (pset math_lib_id (table_of (math_lib d) empty_table)
+               (pset string_meta_id (table_of [("__index", VTable string_lib_id)] empty_table) PLeaf)))) in
+  mkState PLeaf 1%positive tabs 6%positive PLeaf 1%positive [] d.
 
 Inductive final :=
 | FDone
